@@ -831,6 +831,18 @@ func c01r4(c *Ctx) {
 // passesSameAccountAsRead: call u passes the account the entry was read from.
 func passesSameAccountAsRead(e *Env, u *ssa.Call, ent ssa.Value) bool {
 	org := entryOrigin(e, ent, 0)
+	if strings.HasPrefix(org, "param:") && e.Parent == nil && !isExportedAPI(e.Fn) && len(e.P.Callers[e.Fn]) > 0 {
+		// the entry is handed in by the caller (a debit step that receives what a sibling step has read): judge in every
+		// calling context
+		n := 0
+		for _, ce := range e.P.contextsOf(e.Fn, 2) {
+			if ce.Parent == nil || !passesSameAccountAsRead(ce, u, ent) {
+				return false
+			}
+			n++
+		}
+		return n > 0
+	}
 	if !strings.HasPrefix(org, "read:") {
 		return false
 	}
